@@ -627,7 +627,10 @@ def case_triangulate(run, spec):
         run.count("triangulation_t_junctions_observed")
         run.state("t_junction", (eng, _poly_class(a["polygon"])))
     cen = tri.mean(axis=1)
-    outside = [i for i, p in enumerate(cen) if not poly.contains(Point(p))]
+    # (a zero-area triangle over collinear vertices covers nothing: its centroid, a point of a hole's
+    # own edge or of the segment between two holes in line, says nothing about what is filled -
+    # thorough tier, false alarm with the manifold engine)
+    outside = [i for i, p in enumerate(cen) if sa[i] != 0 and not poly.contains(Point(p))]
     if outside:
         J.bad("triangle_outside", "a triangle centroid lies outside the polygon (hole filled / exterior covered)", count=len(outside))
     if eng != "triangle":
